@@ -194,6 +194,11 @@ func (e *Encoder) writeValue(val reflect.Value, tagType byte) error {
 
 		for i := 0; i < val.Len(); i++ {
 			arrType, arrVal := getTagType(val.Index(i))
+			if arrType != eleType {
+				// all elements of a list share the tag announced in its header
+				return errors.New("nbt: list element " + strconv.Itoa(i) + " has tag 0x" + strconv.FormatUint(uint64(arrType), 16) +
+					", the list is of tag 0x" + strconv.FormatUint(uint64(eleType), 16))
+			}
 			err := e.writeValue(arrVal, arrType)
 			if err != nil {
 				return err
